@@ -37,14 +37,21 @@ fn stateful_schema(rng: &mut crate::rng::Rng) -> Vec<Field> {
 }
 
 #[derive(Debug, Clone)]
-enum Op { Push(Val), Extend(Vec<Val>), Wrapper(Vec<Val>), Build }
+enum Op { Push(Val), Extend(Vec<Val>), Wrapper(Vec<Val>), Build, Rejected(u8) }
+
+/// a value no record builder accepts and that is refused before any column is touched: the push fails
+/// and must leave every column as it was (no row is added by an operation that did not succeed)
+fn push_rejected(builder: &mut ArrayBuilder, k: u8) -> Result<(), String> {
+    let r = match k { 0 => builder.push(&None::<i32>), 1 => builder.push(&()), 2 => builder.push(&7i32), 3 => builder.push(&"x"), 4 => builder.push(&true), _ => builder.extend(&[None::<i32>]) };
+    match r { Err(_) => Ok(()), Ok(()) => Err("REJECTED_VALUE_ACCEPTED".to_string()) }
+}
 
 fn arrays_equal(a: &[Array], b: &[Array]) -> bool { arrgen::arrays_eq(a, b) }
 
 pub fn run(ctx: &mut Ctx) {
     ctx.runner = "RunC10".into();
     ctx.shard_size = 120;
-    ctx.rule = "histories of push / extend / serialize-through-Serializer / build on one ArrayBuilder (1-6 builds incl. empty and repeated builds) over schemas with per-batch state (dictionaries, dense unions, lists, maps, nullable structs, view types) and random schemas; every returned batch is (a) compared with to_marrow of exactly the rows added since the previous build, (b) compared with a freshly constructed builder fed the same rows, (c) emitted as a RunC01 case (decode = interp, wf, builder model). Non-trivial = at least two builds with rows in between; distinct by (schema, batch rows, result)".into();
+    ctx.rule = "histories of push / extend / serialize-through-Serializer / build on one ArrayBuilder (1-6 builds incl. empty and repeated builds; every third history also has REJECTED operations in between - None, unit, a bare scalar or string pushed as the record, extend with a None - which must fail and leave no row behind) over schemas with per-batch state (dictionaries, dense unions, lists, maps, nullable structs, view types) and random schemas; every returned batch is (a) compared with to_marrow of exactly the rows added since the previous build, (b) compared with a freshly constructed builder fed the same rows, (c) emitted as a RunC01 case (decode = interp, wf, builder model). Non-trivial = at least two builds with rows in between; distinct by (schema, batch rows, result)".into();
     let n = if ctx.thorough { 8000 } else { 500 };
     for h in 0..n {
         let mut rng = ctx.rng.fork();
@@ -54,6 +61,8 @@ pub fn run(ctx: &mut Ctx) {
         let mut none = Inject { countdown: -1, what: None };
         for _ in 0..nops {
             let rows = |rng: &mut crate::rng::Rng, none: &mut Inject| -> Vec<Val> { let k = rng.below(4); (0..k).map(|_| arrgen::gen_record(rng, &fields, none)).collect() };
+            let with_rejects = h % 3 == 0;
+            if with_rejects && rng.chance(1, 3) { ops.push(Op::Rejected(rng.below(6) as u8)); }
             ops.push(match rng.below(8) { 0 | 1 | 2 => Op::Push(arrgen::gen_record(&mut rng, &fields, &mut none)), 3 => Op::Extend(rows(&mut rng, &mut none)), 4 => Op::Wrapper(rows(&mut rng, &mut none)), _ => Op::Build });
         }
         ops.push(Op::Build);
@@ -66,12 +75,14 @@ pub fn run(ctx: &mut Ctx) {
                     Op::Push(v) => { builder.push(v).map_err(|e| e.to_string())?; pending.push(v.clone()); }
                     Op::Extend(vs) => { builder.extend(vs).map_err(|e| e.to_string())?; pending.extend(vs.iter().cloned()); }
                     Op::Wrapper(vs) => { vs.serialize(serde_arrow::Serializer::new(&mut builder)).map_err(|e| e.to_string())?; pending.extend(vs.iter().cloned()); }
+                    Op::Rejected(k) => push_rejected(&mut builder, *k)?,
                     Op::Build => { let arrays = builder.to_marrow().map_err(|e| e.to_string())?; batches.push((std::mem::take(&mut pending), arrays)); }
                 }
             }
             Ok(batches)
         });
         ctx.count(&format!("history:{}", res.class()));
+        if ops.iter().any(|o| matches!(o, Op::Rejected(_))) { ctx.count("history:with_rejected_pushes"); }
         match res {
             Out::Ok(batches) => {
                 let nb = batches.iter().filter(|(r, _)| !r.is_empty()).count();
@@ -93,7 +104,7 @@ pub fn run(ctx: &mut Ctx) {
                 let desc = json!({"history": h, "fields": format!("{:?}", fields), "ops": format!("{:?}", ops), "error": e});
                 let idx = ctx.add_case(format!("(CBatch {{| c_fields := []; c_rows := []; c_impl := (Ok []) |}})"), desc, true);
                 // is the failure reproducible on a fresh builder with the same rows? then it is not a history effect
-                let all: Vec<Val> = ops.iter().flat_map(|o| match o { Op::Push(v) => vec![v.clone()], Op::Extend(v) | Op::Wrapper(v) => v.clone(), Op::Build => vec![] }).collect();
+                let all: Vec<Val> = ops.iter().flat_map(|o| match o { Op::Push(v) => vec![v.clone()], Op::Extend(v) | Op::Wrapper(v) => v.clone(), Op::Build | Op::Rejected(_) => vec![] }).collect();
                 if let Out::Ok(_) = guarded(|| serde_arrow::to_marrow(&fields, &all).map_err(|e| e.to_string())) {
                     ctx.fail(idx, "history_fails_but_one_shot_succeeds", format!("history {}: {}", h, e));
                 }
